@@ -18,7 +18,7 @@ REPO = os.environ.get("NIFLY_REPO", "/repo")
 CACHE = os.path.join(VERIF, ".cache")
 GUARD = "NIFLY_VERIF"
 
-SAN = ["-fsanitize=address,undefined", "-fno-sanitize=alignment,bool", "-fno-sanitize-recover=all"]
+SAN = ["-fsanitize=address,undefined", "-fno-sanitize=alignment,bool,enum", "-fno-sanitize-recover=all"]
 COMMON = ["-std=c++17", "-g", "-fno-omit-frame-pointer", "-D_GLIBCXX_ASSERTIONS", "-D" + GUARD, "-w"]
 
 
